@@ -42,6 +42,8 @@ def c01(res: CheckResult) -> None:
     call_unit(res, "pre-gate (9 kinds x 9 shapes x truth x around x sync/async x error forms)",
               list(F.fam_pre(res.tier, rng)), ic, require_outcomes=["ret", "Violation"])
     random_unit(res, "random programs beyond the exhaustive bounds", list(F.fam_random(res.tier, rng, "pre")), ic)
+    call_unit(res, "the pre-gate programs with one more class level that overrides the member without own contracts",
+              F.with_bare_override(F.fam_pre(res.tier, rng), rng, 500 if res.tier == "quick" else 4000), ic)
     call_unit(res, "contract errors deriving from BaseException, the same contract violated three times in a row",
               list(F.fam_errbase(res.tier, rng)), ic)
     call_unit(res, "calls passing an unexpected keyword named like a reserved name, then ordinary calls",
@@ -92,6 +94,8 @@ def c02(res: CheckResult) -> None:
     call_unit(res, "post-gate (kinds x stacks of 0..3 x truth x body outcomes incl. BaseException x sync/async)",
               list(F.fam_post(res.tier, rng)), ic, require_outcomes=["ret", "Violation", "KI", "Exception"])
     random_unit(res, "random programs beyond the exhaustive bounds", list(F.fam_random(res.tier, rng, "post")), ic)
+    call_unit(res, "the post-gate programs with one more class level that overrides the member without own contracts",
+              F.with_bare_override(F.fam_post(res.tier, rng), rng, 500 if res.tier == "quick" else 4000), ic)
     call_unit(res, "contract errors deriving from BaseException, the same contract violated three times in a row",
               list(F.fam_errbase(res.tier, rng)), ic)
     call_unit(res, "calls passing an unexpected keyword named like a reserved name, then ordinary calls",
@@ -158,6 +162,8 @@ def c16(res: CheckResult) -> None:
               list(F.fam_order(res.tier, rng)), ic, require_outcomes=["Violation", "ErrInst", "ErrFact"])
     call_unit(res, "sequences of calls with different arguments on callables with several precondition groups",
               list(F.fam_order_seq(res.tier, rng)), ic)
+    call_unit(res, "the order programs with one more class level that overrides the member without own contracts",
+              F.with_bare_override(F.fam_order(res.tier, rng), rng, 500 if res.tier == "quick" else 4000), ic)
     call_unit(res, "coroutine functions mixing plain and coroutine-function conditions",
               list(F.fam_order_mixed_async(res.tier, rng)), ic)
     def_unit(res, "invariants accumulated along hierarchies incl. diamonds: the first falsy one in the order base before "
